@@ -609,4 +609,21 @@ example : validateListing gateOffer { txid := List.replicate 32 7, vout := 2, sc
     validateListing gateOffer { txid := List.replicate 32 7, vout := 3, script := none, sats := 1 } = false := by
   decide
 
+/-- the script `Tx.Inscribe` builds carries the marker `Script.IsInscribed` looks for, whatever prefix, content type and payload -/
+theorem inscribed_output_is_inscribed (pre ct data s : Bytes) (h : inscriptionScript pre ct data = some s) :
+    Script.isInscribed s = true := by
+  unfold inscriptionScript at h
+  have ho : pushData [111, 114, 100] = some [3, 111, 114, 100] := by decide
+  rw [ho] at h
+  cases hc : pushData ct with
+  | none => simp [hc] at h
+  | some c =>
+    cases hd : pushData data with
+    | none => simp [hc, hd] at h
+    | some d =>
+      simp [hc, hd] at h
+      subst h
+      simp only [Script.isInscribed, decide_eq_true_eq]
+      exact ⟨pre, 81 :: (c ++ 0 :: (d ++ [104])), by simp [Script.inscriptionMarker]⟩
+
 end GoBT.C20
